@@ -1,7 +1,7 @@
 """C12 — operations never crash, hang, touch foreign memory, or modify their inputs (structural clauses)."""
 from .common import STD_ASSUME
 from ..rules import callsites as cs
-from ..rules import safety
+from ..rules import safety, guards, origin, forward
 
 
 def run(rep, fb, tier):
@@ -21,6 +21,14 @@ def run(rep, fb, tier):
     safety.rule_extern_c_nothrow(rep, fb)
     safety.rule_no_const_cast(rep, fb)
     safety.rule_raw_memory(rep, fb)
+    safety.rule_width(rep, fb)
+    guards.rule_invariants(rep, fb)
+    guards.rule_getitem_at(rep, fb)
+    guards.rule_division(rep, fb)
+    guards.rule_const_subscript(rep, fb)
+    from ..rules import pyrules
+    pyrules.rule_py_borrowed(rep, ["_util.py", "operations/structure.py", "operations/convert.py", "highlevel.py", "_connect/_numpy.py", "partition.py", "behaviors/string.py",
+                                   "behaviors/categorical.py", "operations/reducers.py", "operations/describe.py"], floor=20)
     if tier == "thorough":
         isites = cs.kernel_sites(fb, api, inst=True)
         for fn in (cs.rule_errflow, cs.rule_fresh, cs.rule_role):
